@@ -1,9 +1,17 @@
 (* Correspondence checker for C31: struct field lists and copy flows observed by reflection,
    conversion results on random values, and the ClientHello codec on real hello bytes —
    each compared with Model/Public.v and Model/GoCH.v. *)
-From Coq Require Export String.
+From Coq Require Export String Uint63.
 From UV Require Export Base.Common Model.Public Model.GoCH.
 Open Scope N_scope.
+
+(* compact input syntax for the generated case files: numbers as primitive-int literals (parsed natively),
+   byte strings as 7-byte big-endian chunks, the last chunk holding [r] bytes *)
+Definition u (x : int) : N := Z.to_N (Uint63.to_Z x).
+Fixpoint be (n : nat) (x : N) (acc : bytes) : bytes :=
+  match n with O => acc | S n' => be n' (x / 256) ((x mod 256) :: acc) end.
+Fixpoint ub (l : list int) (r : nat) : bytes :=
+  match l with [] => [] | [x] => be r (u x) [] | x :: t => be 7 (u x) (ub t r) end.
 
 (* decidable equality of the record types (transparent, evaluated by vm_compute) *)
 Definition bytes_dec : forall a b : bytes, {a = b} + {a <> b}. Proof. repeat decide equality. Defined.
@@ -96,7 +104,9 @@ Definition check (c : case) : bool :=
   | CParse b o exts =>
       match UnmarshalClientHello b, o with
       | Some c, Some c' => eqb_of CH_dec (CH_set_cached c None) c' &&
-                           match CH_cachedPrivateHello c with Some m => list_eqb N.eqb (ch_extensions m) exts | None => false end
+                           match CH_cachedPrivateHello c with Some m => list_eqb N.eqb (ch_extensions m) exts | None => false end &&
+                           (* the premise of C31_reparse_stable_partial holds for what was parsed *)
+                           wf_msgb (CH_private_of (CH_clear_raw c))
       | None, None => true
       | _, _ => false end
   | CMarshalMsg c o => res_matches (marshalMsg (CH_private_of c)) o
